@@ -790,6 +790,28 @@ mod native {
         v
     }
 
+    /// Points at every distance scale from what the parameters locate: centre ± scale·10^(k/2) and
+    /// (finite) support end + / − scale·10^(k/2) towards the inside, k = −24 … 2 (1e-12 … 10 scale
+    /// units), as far as they lie inside the support and are not already in `have`.
+    fn near_location_points(m: &CModel, have: &[f64]) -> Vec<f64> {
+        let mut v: Vec<f64> = Vec::new();
+        for k in -24..=2 {
+            let d = m.s * 10f64.powf(0.5 * k as f64);
+            v.push(m.c + d);
+            v.push(m.c - d);
+            if m.lo.is_finite() {
+                v.push(m.lo + d);
+            }
+            if m.hi.is_finite() {
+                v.push(m.hi - d);
+            }
+        }
+        v.retain(|x| x.is_finite() && m.inside(*x) && !have.iter().any(|h| h == x));
+        v.sort_by(|p, q| p.partial_cmp(q).unwrap());
+        v.dedup();
+        v
+    }
+
     fn run_cont(spec: &CSpec, rep: &mut Report) {
         let regime = spec.regime();
         let law = spec.name();
@@ -812,11 +834,21 @@ mod native {
         let edge_regime = format!("{}:factor-edge", law);
         let coincide_regime = format!("{}:coincide", base_regime);
         let coincide = coincidence_points(spec, &m, &inside);
-        for (pi, &x) in inside.iter().chain(coincide.iter()).enumerate() {
+        let near_regime = format!("{}:near-location", base_regime);
+        let near = {
+            let mut have = inside.clone();
+            have.extend(coincide.iter().cloned());
+            near_location_points(&m, &have)
+        };
+        for (pi, &x) in inside.iter().chain(coincide.iter()).chain(near.iter()).enumerate() {
             let regime = match m.judged(x) {
                 None => {
                     rep.note_add("skipped.points_with_unrepresentable_textbook_factor", 1.0);
                     continue;
+                }
+                Some(false) if pi >= inside.len() + coincide.len() => {
+                    rep.seen(&format!("near-location:{}", law), 1);
+                    &near_regime
                 }
                 Some(false) if pi >= inside.len() => {
                     rep.seen(&format!("coincide:{}", law), 1);
@@ -1500,14 +1532,31 @@ mod native {
     // -----------------------------------------------------------------------------------------
     // Normal::cdf = integral of Normal::pdf (and = erfc form)
 
+    /// Normal::cdf at every distance scale from the location: standardised arguments
+    /// z = ±10^(k/8), k = −128 … 0 (1e-16 … 1, eight per decade) and ±2^−j, j = 1 … 60; the argument
+    /// actually passed is fl(mu + z sigma), and both references are evaluated at that argument.
+    fn run_normal_cdf_scales(mu: f64, sigma: f64, rep: &mut Report) {
+        let mut xs: Vec<f64> = Vec::new();
+        for k in -128..=0 {
+            let z = 10f64.powf(k as f64 / 8.0);
+            xs.push(mu + z * sigma);
+            xs.push(mu - z * sigma);
+        }
+        for j in 1..=60 {
+            let z = 0.5f64.powi(j);
+            xs.push(mu + z * sigma);
+            xs.push(mu - z * sigma);
+        }
+        xs.retain(|x| x.is_finite());
+        let band = if sigma < 1e-2 { "sigma<1e-2" } else if sigma <= 1e2 { "1e-2<=sigma<=1e2" } else { "sigma>1e2" };
+        rep.seen(&format!("normal_cdf:near-location:{}", band), 1);
+        if mu.abs() >= 100.0 {
+            rep.seen("normal_cdf:near-location:|mu|>=100", 1);
+        }
+        normal_cdf_at(mu, sigma, xs, "normal:cdf:near-location", rep);
+    }
+
     fn run_normal_cdf(mu: f64, sigma: f64, rep: &mut Report) {
-        let regime = "normal";
-        let params = json!({"law": "normal", "params": [mu, sigma]});
-        let d = match guard(|| Normal::new(mu, sigma)) {
-            Ok(d) => d,
-            Err(_) => return,
-        };
-        rep.distinct(Hasher::new().s("normal_cdf").f(mu).f(sigma).finish(), true);
         let mut xs: Vec<f64> = LADDER.iter().map(|&p| quantile(&|x| sp::norm_cdf(x, mu, sigma), p, f64::NEG_INFINITY, f64::INFINITY, mu, sigma)).collect();
         for k in [0.0, 1e-3, 0.5, 3.0, 5.0, 8.0, 12.0, 38.0, 1e3] {
             xs.push(mu + k * sigma);
@@ -1518,6 +1567,16 @@ mod native {
             xs.push(mu.round() + k);
             xs.push(k);
         }
+        normal_cdf_at(mu, sigma, xs, "normal", rep);
+    }
+
+    fn normal_cdf_at(mu: f64, sigma: f64, mut xs: Vec<f64>, regime: &str, rep: &mut Report) {
+        let params = json!({"law": "normal", "params": [mu, sigma]});
+        let d = match guard(|| Normal::new(mu, sigma)) {
+            Ok(d) => d,
+            Err(_) => return,
+        };
+        rep.distinct(Hasher::new().s("normal_cdf").s(regime).f(mu).f(sigma).finish(), true);
         xs.sort_by(|p, q| p.partial_cmp(q).unwrap());
         xs.dedup();
         // running quadrature of the library's pdf from mu − 40 sigma upwards
@@ -2308,7 +2367,7 @@ mod native {
     // -----------------------------------------------------------------------------------------
 
     pub fn run(cfg: &Cfg, rep: &mut Report) {
-        rep.rule = "settings = fixed grid over every law x parameter regime of the quantifier (+ random settings inside the same regimes in the thorough tier); per setting: 41-point quantile ladder, centre, ±50/1e3/1e6 scale units, support ends ±1 ulp, points strictly outside; discrete laws: every count of the support (Poisson: 0..lambda+40 sqrt(lambda)+60) plus negative and too-large counts; edge settings: Gamma shape 20..171.5 x rates 1e-3..1e3 and rates with α·ln β = ±690..709.5, Beta with α+β = 143..171.6 in both orders, χ² dof 120..198, plus points x with (shape−1)·ln x = 680..709.6 for every Gamma/χ² setting; MVN: random SPD covariance, dimension 1..6, points at 0..45 Mahalanobis radii. Exact coincidences: every continuous setting also at its parameters and their simple combinations, textbook/reported mean, mean ± sd, mode, median, whole numbers and centre + k·scale/2 (regime <base>:coincide); MVN with random-SPD / equicorrelated / AR(1)-Toeplitz covariances and zero / integer / on-lattice / generic means at x = mean, at points that equal the mean bit for bit on a non-empty proper subset of the coordinates (10 subsets per setting incl. first-only, last-only, all-but-first) and at power-of-two lattice points, axis points and signed zeros (regimes mvn:tie:all, mvn:tie:partial, mvn:lattice). MVN in other units (regimes mvn:scale:uniform:*, mvn:scale:per-coordinate:*): ten base covariances (random SPD, equicorrelated, AR(1)-Toeplitz, hub-and-leaves with the hub first / last, banded, block-diagonal, ring / tree / sparse graph under a random labelling, inverse of a chain / tree precision matrix, diagonal + rank one) x dimension 1..6 x units s_j per coordinate (one power of two or ten for all, a few decades around a common magnitude, independent over 40 decades, graded), standard deviations 1e-20..1e20, means s_j x (0 / integer / O(10) / O(1e3)), points mean + t L z for t = 0..45 plus 5 partial ties with the mean; the structured bases also at unit scale (regimes mvn:structured:<kind>); pdf and ln_pdf against the double-double reference. ln_pdf of every continuous law is evaluated at every point at which pdf is judged: inside the support (against ln(pdf) and against the reference log-density), in the far tails where the density underflows (−inf = ln of the returned 0, or the reference log-density), on the support ends (ln of the returned density) and strictly outside the support (exactly −inf). evaluations = point evaluations + one per moment check; distinct = distinct (law, parameters); all are non-trivial".into();
+        rep.rule = "settings = fixed grid over every law x parameter regime of the quantifier (+ random settings inside the same regimes in the thorough tier); per setting: 41-point quantile ladder, centre, ±50/1e3/1e6 scale units, support ends ±1 ulp, points strictly outside; discrete laws: every count of the support (Poisson: 0..lambda+40 sqrt(lambda)+60) plus negative and too-large counts; edge settings: Gamma shape 20..171.5 x rates 1e-3..1e3 and rates with α·ln β = ±690..709.5, Beta with α+β = 143..171.6 in both orders, χ² dof 120..198, plus points x with (shape−1)·ln x = 680..709.6 for every Gamma/χ² setting; MVN: random SPD covariance, dimension 1..6, points at 0..45 Mahalanobis radii. Exact coincidences: every continuous setting also at its parameters and their simple combinations, textbook/reported mean, mean ± sd, mode, median, whole numbers and centre + k·scale/2 (regime <base>:coincide), and at every distance scale from the centre and from each finite support end: centre ± scale·10^(k/2), end ± scale·10^(k/2) towards the inside, k = −24..2 (regime <base>:near-location); Normal::cdf also at standardised arguments ±10^(k/8), k = −128..0, and ±2^−j, j = 1..60, for every Normal setting (regime normal:cdf:near-location); MVN with random-SPD / equicorrelated / AR(1)-Toeplitz covariances and zero / integer / on-lattice / generic means at x = mean, at points that equal the mean bit for bit on a non-empty proper subset of the coordinates (10 subsets per setting incl. first-only, last-only, all-but-first) and at power-of-two lattice points, axis points and signed zeros (regimes mvn:tie:all, mvn:tie:partial, mvn:lattice). MVN in other units (regimes mvn:scale:uniform:*, mvn:scale:per-coordinate:*): ten base covariances (random SPD, equicorrelated, AR(1)-Toeplitz, hub-and-leaves with the hub first / last, banded, block-diagonal, ring / tree / sparse graph under a random labelling, inverse of a chain / tree precision matrix, diagonal + rank one) x dimension 1..6 x units s_j per coordinate (one power of two or ten for all, a few decades around a common magnitude, independent over 40 decades, graded), standard deviations 1e-20..1e20, means s_j x (0 / integer / O(10) / O(1e3)), points mean + t L z for t = 0..45 plus 5 partial ties with the mean; the structured bases also at unit scale (regimes mvn:structured:<kind>); pdf and ln_pdf against the double-double reference. ln_pdf of every continuous law is evaluated at every point at which pdf is judged: inside the support (against ln(pdf) and against the reference log-density), in the far tails where the density underflows (−inf = ln of the returned 0, or the reference log-density), on the support ends (ln of the returned density) and strictly outside the support (exactly −inf). evaluations = point evaluations + one per moment check; distinct = distinct (law, parameters); all are non-trivial".into();
         rep.assume("pointwise formula checks are restricted to points where every partial product of the textbook factors is a representable f64 (DESIGN: 'combinations whose textbook factors are individually representable'); skipped points are counted in notes.skipped.*");
         rep.assume("edge of the f64 range (regimes <law>:factor-edge, laws Gamma, Beta, ChiSquared): a point that fails the order-free rule only because a factor or partial product lies in the last e^10 of the range is still judged when every intermediate result of the textbook formula evaluated as printed (Gamma: β^α/Γ(α)·x^(α−1)·e^(−βx); Beta: x^(α−1)(1−x)^(β−1)/B, B = Γ(α)Γ(β)/Γ(α+β); χ²: 1/(2^(k/2)Γ(k/2))·x^(k/2−1)·e^(−x/2)) has its logarithm in [-708, 709.7] (underflow allowed when the density itself is below e^-700); beyond that range no textbook factor is an f64 and nothing is judged");
         rep.assume("mass/mean/var are integrated only when the pointwise formula check passed for the setting (a wrong pdf is already reported), when the moment is finite with tail exponent margin >= 1/2 (T dof >= 1.5/2.5, Pareto alpha >= 1.5/2.5) and the density is not singular at a non-zero support end (Beta with b < 1)");
@@ -2331,6 +2390,8 @@ mod native {
         par_cases(cfg, rep, 2, dgrid.len(), |i, _rng, rep| run_disc(&dgrid[i], rep));
         let normals: Vec<(f64, f64)> = cgrid.iter().filter(|s| s.law == CLaw::Normal).map(|s| (s.a, s.b)).collect();
         par_cases(cfg, rep, 3, normals.len(), |i, _rng, rep| run_normal_cdf(normals[i].0, normals[i].1, rep));
+        // Normal::cdf at every distance scale from the location (1e-16 … 1 standard deviations)
+        par_cases(cfg, rep, 11, normals.len(), |i, _rng, rep| run_normal_cdf_scales(normals[i].0, normals[i].1, rep));
         let nm = cfg.pick(600, 6000, 2);
         par_cases(cfg, rep, 4, nm, |i, rng, rep| run_mvn(rng, 1 + i % 6, rep));
         // evaluation points with exact coincidences against the parameters (MVN: partial ties)
@@ -2351,6 +2412,7 @@ mod native {
                 run_cont(&s, rep);
                 if s.law == CLaw::Normal {
                     run_normal_cdf(s.a, s.b, rep);
+                    run_normal_cdf_scales(s.a, s.b, rep);
                 }
             });
             par_cases(cfg, rep, 6, 3000, |_i, rng, rep| {
@@ -2379,6 +2441,11 @@ mod native {
             }
             for law in ["normal", "gamma", "beta", "chi2", "t", "pareto", "gumbel", "exponential", "uniform"] {
                 rep.require(&format!("coincide:{}", law), 10);
+                rep.require(&format!("near-location:{}", law), 50);
+            }
+            rep.require("normal:cdf:near-location", 1000);
+            for band in ["sigma<1e-2", "1e-2<=sigma<=1e2", "sigma>1e2", "|mu|>=100"] {
+                rep.require(&format!("normal_cdf:near-location:{}", band), 1);
             }
             // the log-density is evaluated at every kind of point: inside the support for every law,
             // where the density has left the f64 range for every law with unbounded support, on the
